@@ -111,7 +111,7 @@ def gen_score(rng, profile="full", size="small"):
     ts = wchoice(rng, TIMESIGS, TIMESIGS_W)
     plan = []  # (length in quarters, (beats, beat_type) or None if unchanged)
     pickup = None
-    if profile not in ("unfold",) and rng.random() < 0.3:
+    if profile not in ("unfold",) and rng.random() < 0.3 and not (profile == "match" and nmeas < 2):
         full = F(ts[0] * 4, ts[1])
         opts = [x for x in (F(1), F(1, 2), F(2), F(3, 2), F(1, 4)) if x < full]
         if opts:
@@ -122,8 +122,10 @@ def gen_score(rng, profile="full", size="small"):
         if m == 0:
             change = cur
         elif rng.random() < 0.15 and profile not in ("unfold",):
-            cur = wchoice(rng, TIMESIGS, TIMESIGS_W)
-            change = cur
+            new_ts = wchoice(rng, TIMESIGS, TIMESIGS_W)
+            if new_ts != cur:  # a repeated identical signature is not a change
+                cur = new_ts
+                change = cur
         L = F(cur[0] * 4, cur[1])
         if m == 0 and pickup is not None:
             L = pickup
@@ -338,10 +340,12 @@ def gen_part(rng, pid, plan, has_pickup, profile):
         "nstaves": nstaves,
     }
     # --- key signatures, clefs
-    part["keysigs"].append({"t": 0, "fifths": rng.choice((0, 0, 1, -1, 2, -3, 4, -5, 7)), "mode": rng.choice(("major", "minor", None))})
+    part["keysigs"].append({"t": 0, "fifths": rng.choice((0, 0, 1, -1, 2, -3, 4, -5, 7)), "mode": rng.choice(("major", "minor", None)) if profile != "match" else rng.choice(("major", "minor"))})
     if len(measures) > 2 and rng.random() < 0.2:
         mm = rng.choice(measures[1:])
-        part["keysigs"].append({"t": mm["s"], "fifths": rng.choice((-2, 3, 0, 5)), "mode": rng.choice(("major", "minor"))})
+        ks2 = {"t": mm["s"], "fifths": rng.choice((-2, 3, 0, 5)), "mode": rng.choice(("major", "minor"))}
+        if (ks2["fifths"], ks2["mode"]) != (part["keysigs"][0]["fifths"], part["keysigs"][0]["mode"]):  # a repeated identical signature is not a change
+            part["keysigs"].append(ks2)
     for s in range(1, nstaves + 1):
         sign, line = (("G", 2) if s == 1 else ("F", 4))
         if rng.random() < 0.15:
